@@ -284,27 +284,27 @@ struct Expect {
 };
 
 // ------------------------------------------------------------------ scenario
-Json index_list(size_t n) { Json a = Json::array(); for (size_t i = 0; i < n; ++i) a.push((long)i); return a; }
-
+// The scenario carries the model explicitly (JSON form of the IR) so that a replay file stays
+// valid when the generator changes and so that ddmin can drop constraints / objectives / suffixes.
 Model model_of(const Json& sc) {
-  Rng rng((uint64_t)sc["model_seed"].as_double(), "C03.model", (uint64_t)sc["model_index"].as_double());
-  GenOpts go; go.feeder_safe = true; go.awkward_numbers = sc["awkward"].as_bool();
-  Model m = gen_model(rng, go);
-  // structural shrinking: items not listed keep their place but lose their content
-  auto listed = [&](const char* key, size_t i) {
-    if (!sc.has(key)) return true;
-    for (auto& v : sc[key].arr()) if ((size_t)v.as_int() == i) return true;
-    return false;
-  };
-  for (size_t i = 0; i < m.cons.size(); ++i) if (!listed("full_cons", i)) { m.cons[i].e = Ex(); m.cons[i].lin.clear(); m.cons[i].b = Bound(); }
-  for (size_t i = 0; i < m.lcons.size(); ++i) if (!listed("full_lcons", i)) { Ex t; t.num = 1; m.lcons[i] = t; }
-  for (size_t i = 0; i < m.objs.size(); ++i) if (!listed("full_objs", i)) { m.objs[i].e = Ex(); m.objs[i].lin.clear(); }
-  for (size_t i = 0; i < m.cexprs.size(); ++i) if (!listed("full_cexprs", i)) { m.cexprs[i].e = Ex(); m.cexprs[i].lin.clear(); }
-  { std::vector<NLSuffix> k; for (size_t i = 0; i < m.sufs.size(); ++i) if (listed("sufs", i)) k.push_back(m.sufs[i]); m.sufs = k; }
-  { std::vector<std::pair<int, double>> k; for (size_t i = 0; i < m.x0.size(); ++i) if (listed("x0", i)) k.push_back(m.x0[i]); m.x0 = k; }
-  { std::vector<std::pair<int, double>> k; for (size_t i = 0; i < m.d0.size(); ++i) if (listed("d0", i)) k.push_back(m.d0[i]); m.d0 = k; }
-  for (size_t i = 0; i < m.vbounds.size(); ++i) if (!listed("full_vbounds", i)) m.vbounds[i] = Bound();
-  for (auto& vb : m.vbounds) if (vb.kind == 3) { vb.lb = -INFINITY; vb.ub = INFINITY; }
+  Model m = Model::from_json(sc["model"]);
+  if (m.nvars < 1) m.nvars = 1, m.vbounds.resize(1);
+  // references inside expressions must stay within what is left after shrinking
+  int nrefs = m.nvars + (int)m.cexprs.size(), nfuncs = (int)m.funcs.size();
+  struct Fix {
+    int nrefs, nfuncs, nvars;
+    void operator()(Ex& e) const {
+      if (e.tag == 'v' && (e.idx < 0 || e.idx >= nrefs)) e.idx = 0;
+      if (e.tag == 'f' && (e.op < 0 || e.op >= nfuncs)) { e = Ex(); return; }
+      if (e.tag == 'o' && op_class(e.op) == OC_PLTERM && (e.a.empty() || e.a[0].tag != 'v' || e.pl.size() < 3 || e.pl.size() % 2 == 0)) { e = Ex(); return; }
+      for (auto& k : e.a) (*this)(k);
+    }
+  } fix{nrefs, nfuncs, m.nvars};
+  for (auto& c : m.cons) { fix(c.e); if (c.b.kind == 5 && (c.b.cvar < 1 || c.b.cvar > m.nvars || c.b.cflags < 1 || c.b.cflags > 3)) c.b = Bound(); }
+  for (auto& e : m.lcons) fix(e);
+  for (auto& ob : m.objs) fix(ob.e);
+  for (size_t k = 0; k < m.cexprs.size(); ++k) { Fix f2{m.nvars + (int)k, nfuncs, m.nvars}; f2(m.cexprs[k].e); }
+  for (auto& vb : m.vbounds) { if (vb.kind == 5) vb = Bound(); if (vb.kind == 3) { vb.lb = -INFINITY; vb.ub = INFINITY; } }
   for (auto& c : m.cons) if (c.b.kind == 3) { c.b.lb = -INFINITY; c.b.ub = INFINITY; }
   return m;
 }
@@ -313,18 +313,9 @@ Json generate(const std::string& tier, uint64_t seed, uint64_t index) {
   (void)tier;
   Rng rng(seed, "C03", index);
   Json sc = Json::object();
-  sc.set("model_seed", (double)seed);
-  sc.set("model_index", (double)index);
-  sc.set("awkward", rng.chance(0.6));
-  Model m = model_of(sc);
-  sc.set("full_cons", index_list(m.cons.size()));
-  sc.set("full_lcons", index_list(m.lcons.size()));
-  sc.set("full_objs", index_list(m.objs.size()));
-  sc.set("full_cexprs", index_list(m.cexprs.size()));
-  sc.set("full_vbounds", index_list(m.vbounds.size()));
-  sc.set("sufs", index_list(m.sufs.size()));
-  sc.set("x0", index_list(m.x0.size()));
-  sc.set("d0", index_list(m.d0.size()));
+  GenOpts go; go.feeder_safe = true; go.awkward_numbers = rng.chance(0.6);
+  Model m = gen_model(rng, go);
+  sc.set("model", m.to_json());
   Json w = Json::object();
   w.set("comments", rng.chance(0.5));
   w.set("bounds_first", rng.chance(0.5));
@@ -417,8 +408,8 @@ sim::RunResult run(const Json& sc) {
         while (p < kv.second.size() && p < it->second.size() && kv.second[p] == it->second[p]) ++p;
         size_t from = p > 30 ? p - 30 : 0;
         std::string cause = item_kind(kv.first);
-        if (kv.second.find("0x1.fffffffffffffp+1023") != std::string::npos && it->second.find("inf") != std::string::npos) cause += "-dblmax-as-infinity";
-        else if (kv.first == "HDR" && kv.second.compare(0, kv.second.find(" vbtol="), it->second, 0, it->second.find(" vbtol=")) == 0) cause = "HDR-vbtol";
+        if (kv.first == "HDR" && kv.second.compare(0, kv.second.find(" vbtol="), it->second, 0, it->second.find(" vbtol=")) == 0) cause = "HDR-vbtol";
+        else if (kv.second.find("0x1.fffffffffffffp+1023") != std::string::npos && it->second.find("inf") != std::string::npos) cause += "-dblmax-as-infinity";
         v.set("ITEM_MISMATCH", cause + "/" + enc, std::string(enc) + " item " + kv.first + ": fed [..." + kv.second.substr(from, 120) + "] read [..." +
               it->second.substr(from, 120) + "]");
         break;
